@@ -140,13 +140,32 @@ def extra_seed_rounds(out, exe, prop, res, main_secs):
 
 
 def release_profile_pass(out, prop, res):
-    """Thorough tier: the quick workload once more from a plain release build (no debug assertions, no overflow checks):
-    code inside debug_assert!/cfg(debug_assertions) is absent there and wrapping arithmetic is silent."""
+    """Both tiers: the quick workload once more from a plain release build (no debug assertions, no overflow checks):
+    code inside debug_assert!/cfg(debug_assertions) is absent there and wrapping arithmetic is silent.  C10 has its own
+    release-profile process (props.run_c10)."""
+    if prop == "C10" or os.environ.get("VERIF_NO_RELEASE_PASS"):
+        return
     exe2, msg = build_harness(profile="release")
     if exe2 is None:
         out.inconclusive.append("release-profile pass: " + msg)
         return
+    if prop == "C08":
+        from . import c08
+        o2 = common.Outcome(prop, "quick")
+        c08.run(o2, exe2, "quick", res)
+        for v in o2.violations:
+            rp = dict(v["replay"] or {})
+            rp["build_profile"] = "release"
+            out.violation(v["sig"], "[release profile] " + v["desc"], rp)
+        out.inconclusive.extend("release-profile pass: " + x for x in o2.inconclusive)
+        out.evaluations += o2.evaluations
+        out.coverage_extra["release_profile_pass"] = {"workload": "quick", "evaluations": o2.evaluations, "violations": len(o2.violations)}
+        return
     rep, status, err = run_harness(exe2, ["run", prop, "quick", str(common.seed()), res], res, TIMEOUTS["quick"])
+    if rep is None and prop == "C09" and "died from signal" in status:
+        from . import props
+        props._c09_journal(out, exe2, "quick", res, status, {})
+        return
     if rep is None:
         out.inconclusive.append("release-profile pass: " + status)
         return
@@ -154,6 +173,8 @@ def release_profile_pass(out, prop, res):
     rep["samples"] = []
     for v in rep.get("violations", []):
         v["desc"] = "[release profile] " + v.get("desc", "")
+        if isinstance(v.get("replay"), dict):
+            v["replay"]["build_profile"] = "release"
     absorb(out, rep)
     out.distinct_nontrivial = d
     out.coverage_extra["release_profile_pass"] = {"workload": "quick", "evaluations": rep.get("evaluations", 0), "violations": rep.get("violations_total", 0)}
@@ -170,6 +191,12 @@ def run(prop, tier, replay=None):
     work = os.path.join(harness_dir(), "run")
     os.makedirs(work, exist_ok=True)
     res = os.path.join(work, "%s-%s-%d.json" % (prop, tier, os.getpid()))
+    if replay is not None and replay.get("build_profile") == "release":
+        exe_r, msg = build_harness(profile="release")
+        if exe_r is None:
+            out.inconclusive.append(msg)
+            return out.finish()
+        exe = exe_r
     if replay is not None and prop == "C08":
         from . import c08
         c08.replay(out, exe, replay, res)
@@ -194,6 +221,8 @@ def run(prop, tier, replay=None):
     handler = getattr(props, "run_" + prop.lower(), None)
     if handler is not None:
         handler(out, exe, tier, res)
+        if not (prop == "C09" and tier == "thorough") and not out.violations:
+            release_profile_pass(out, prop, res)    # (C09 thorough and C10 run their own)
     else:
         t0 = time.time()
         rep, status, err = run_harness(exe, ["run", prop, tier, str(common.seed()), res], res, TIMEOUTS[tier])
@@ -201,8 +230,9 @@ def run(prop, tier, replay=None):
             out.inconclusive.append(status)
         else:
             absorb(out, rep)
-            if tier == "thorough":
+            if not out.violations:
                 release_profile_pass(out, prop, res)
+            if tier == "thorough":
                 extra_seed_rounds(out, exe, prop, res, time.time() - t0)
     try:
         if os.path.exists(res):
